@@ -136,23 +136,24 @@ Lemma va_read_bs rf rp fo po k sx h m sh : Forall byte sx -> (forall t s2, sx <>
         forall hp : heap, List.length hp = L -> va_rel m' (hp ++ Some blk :: newb) L (hp ++ None :: nones (List.length newb)))
      \/ (st < 0 /\ sh' = VNull /\ exists j, h' = h ++ nones j)) /\
     (st = SBDF_OK -> match Va.va_read false None sx with Ok (_, sM) => s' = sM | Err _ => False end) /\
-    (k < 0 -> match Va.va_read false None sx with Ok (_, sM) => st = SBDF_OK | Err e => st = e end).
+    (k < 0 -> match Va.va_read false None sx with Ok (_, sM) => st = SBDF_OK | Err e => st = e end) /\
+    (k < 0 -> st = SBDF_OK -> k' = k).
 Proof.
   intros Hs H3 L.
-  destruct (rvi_read_bs bv o rf rp fo po k sx h m VNull Hs H3) as (st & l' & sh' & k' & s' & h' & m' & B & Pf & MT & Out & PP).
+  destruct (rvi_read_bs bv o rf rp fo po k sx h m VNull Hs H3) as (st & l' & sh' & k' & s' & h' & m' & B & Pf & MT & Out & PP & KK).
   assert (MT' : k < 0 -> match Va.va_read false None sx with Ok (_, sM) => st = SBDF_OK | Err e => st = e end).
   { intros Hk. specialize (MT Hk). destruct (Va.va_read false None sx) as [[va sM]|eM]; [destruct MT as (MT & _); exact MT|exact MT]. }
   clear MT.
   destruct l'. revert B. unrv. intros B.
   destruct Out as [(-> & -> & Hb' & blk & newb & -> & VR)|(Hneg & j & ->)].
-  - exists SBDF_OK. do 6 eexists. split; [|split; [exact Pf|split; [left; split; [reflexivity|split; [reflexivity|split; [exact Hb'|exists blk, newb; split; [reflexivity|exact VR]]]]|split; [exact PP|exact MT']]]].
+  - exists SBDF_OK. do 6 eexists. split; [|split; [exact Pf|split; [left; split; [reflexivity|split; [reflexivity|split; [exact Hb'|exists blk, newb; split; [reflexivity|exact VR]]]]|split; [exact PP|split; [exact MT'|exact KK]]]]].
     cbn [fbody prog_sbdf_va_read]. unfold vrd, fr. cbn [app].
     eapply bsE_seq; [eapply bsE_decl0; evk; reflexivity|].
     eapply bsE_seq; [eapply bsE_if; [evk; reflexivity|reflexivity|apply bsE_skip]|].
     eapply bsE_seq; [eapply bsE_expr; evk; reflexivity|].
     eapply bsE_seq; [eapply bsE_call; [reflexivity|evk; reflexivity|reflexivity|exact B|evk; reflexivity]|].
     eapply bsE_seq; [eapply bsE_if; [evk; reflexivity|reflexivity|apply bsE_skip]|]. eapply bsE_return. evk. reflexivity.
-  - exists st. do 6 eexists. split; [|split; [exact Pf|split; [right; split; [exact Hneg|split; [reflexivity|exists j; reflexivity]]|split; [intros X; unfold SBDF_OK in X; lia|exact MT']]]].
+  - exists st. do 6 eexists. split; [|split; [exact Pf|split; [right; split; [exact Hneg|split; [reflexivity|exists j; reflexivity]]|split; [intros X; unfold SBDF_OK in X; lia|split; [exact MT'|exact KK]]]]].
     cbn [fbody prog_sbdf_va_read]. unfold vrd, fr. cbn [app].
     eapply bsE_seq; [eapply bsE_decl0; evk; reflexivity|].
     eapply bsE_seq; [eapply bsE_if; [evk; reflexivity|reflexivity|apply bsE_skip]|].
@@ -311,7 +312,7 @@ Proof.
   assert (Hk : k <> 0) by lia.
   set (h0 := h ++ [Some [VInt 0; VInt 0; VInt 0; VInt 0; VInt 1]]).
   assert (HL0 : List.length h0 = S L) by (unfold h0; rewrite app_length; cbn; lia).
-  destruct (va_read_bs rf ROut fo 0 (dec k) s1 h0 m VNull Hs1 (NB s1 eq_refl)) as (st1 & e1 & sh1 & k2 & s2 & h2 & m2 & BV & Pf1 & Out1 & PP1 & MT1).
+  destruct (va_read_bs rf ROut fo 0 (dec k) s1 h0 m VNull Hs1 (NB s1 eq_refl)) as (st1 & e1 & sh1 & k2 & s2 & h2 & m2 & BV & Pf1 & Out1 & PP1 & MT1 & KK1).
   rewrite HL0 in Out1.
   (* the allocation and the owned flag *)
   assert (PRE : forall Y oo, bsE prog_env Y (crf fv ov (Build_crl VUndef (VInt SBDF_OK) VUndef (VCell L 0) VUndef VUndef VUndef VUndef (VInt 0) so) (dec k) s1 h0 m) oo ->
@@ -503,7 +504,7 @@ Proof.
   assert (Hk : k <> 0) by lia.
   set (h0 := h ++ [Some [VInt 0; VInt 0; VInt 0; VInt 0; VInt 1]]).
   assert (HL0 : List.length h0 = S L) by (unfold h0; rewrite app_length; cbn; lia).
-  destruct (va_read_bs rf ROut fo 0 (dec k) s1 h0 m VNull Hs1 (NB s1 eq_refl)) as (st1 & e1 & sh1 & k2 & s2 & h2 & m2 & BV & Pf1 & Out1 & PP1 & MT1).
+  destruct (va_read_bs rf ROut fo 0 (dec k) s1 h0 m VNull Hs1 (NB s1 eq_refl)) as (st1 & e1 & sh1 & k2 & s2 & h2 & m2 & BV & Pf1 & Out1 & PP1 & MT1 & KK1).
   rewrite HL0 in Out1.
   (* the allocation and the owned flag *)
   assert (PRE : forall Y oo, bsE prog_env Y (crf fv ov (Build_crl VUndef (VInt SBDF_OK) VUndef (VCell L 0) VUndef VUndef VUndef VUndef (VInt 0) so) (dec k) s1 h0 m) oo ->
